@@ -35,6 +35,10 @@
 (* D all (b1, b2) x 4 rotations, E x every type, and                       *)
 (*  F  four parameters: four different (loc/req) kinds, shapes (b1, b2)    *)
 (*     free, b3 / b4 derived, four different folded names, 8 rotations.    *)
+(*  G  (both tiers) path items SHARED by 2-3 operations (one path, several  *)
+(*     methods, two path-level parameters): quick (a+b) % 3 = 0, thorough  *)
+(*     all x 3 rotations.  In every stratum the rendering of path-level    *)
+(*     parameters rotates: inline / $ref, before / after the method keys.  *)
 (* mini (design checks with real invariants): thin slices of A, B, C, E.   *)
 (*                                                                         *)
 (* Excluded (stated): array-typed path parameters (the property gives      *)
@@ -51,18 +55,22 @@ TypeSeq == <<"str", "int", "bool", "enum", "date", "datetime", "array">>
 LevelSeq == <<"op", "path">>
 MethodSeq == <<"GET", "POST", "PUT", "PATCH", "DELETE">>
 BodyMethods == <<"POST", "PUT", "PATCH">>
-BodySeq == <<"none", "json_model", "json_prim", "json_array", "json_map", "form", "multipart", "octet", "two">>
+BodySeq == <<"none", "json_model", "json_prim", "json_array", "json_map", "form", "multipart", "octet", "other", "two">>
 PrimSeq == <<"str", "int", "bool">>
-NA == 7   NB == 9   NC == 7   NK == 9
+MediaSeq == <<"text/csv", "application/xml", "image/png", "application/pdf", "text/plain", "application/vnd.x+json">>
+NA == 7   NB == 9   NC == 7   NK == 10
 
 Valid(a, c) == ~(LocReq[a].in = "path" /\ TypeSeq[c] = "array")
 TypeFor(a, c) == IF Valid(a, c) THEN TypeSeq[c] ELSE "str"
 P(a, b, c, lv) == MkParam(LocReq[a].in, LocReq[a].req, TypeFor(a, c), ShapeSeq[b], LevelSeq[lv])
 \* the merged order of the loader: path-level declarations first
 Ord(ps) == SelectSeq(ps, LAMBDA p : p.level = "path") \o SelectSeq(ps, LAMBDA p : p.level = "op")
-Body(k, required) == [kind |-> BodySeq[k], required |-> required, ptype |-> ""]
-\* the JSON primitive body rotates over string / integer / boolean
-WithPrim(b, n) == IF b.kind = "json_prim" THEN [b EXCEPT !.ptype = PrimSeq[(n % 3) + 1]] ELSE b
+Body(k, required) == [kind |-> BodySeq[k], required |-> required, ptype |-> "", media |-> ""]
+\* the JSON primitive body rotates over string / integer / boolean, the "other" body over six media types
+WithPrim(b, n) == IF b.kind = "json_prim" THEN [b EXCEPT !.ptype = PrimSeq[(n % 3) + 1]]
+                  ELSE IF b.kind = "other" THEN [b EXCEPT !.media = MediaSeq[(n % 6) + 1]] ELSE b
+\* how the document renders path-level parameters rotates as well (inline / $ref, before / after the method keys)
+Rend(o, n) == [o EXCEPT !.pref = (n % 2 = 1), !.pafter = ((n \div 2) % 2 = 1)]
 MethodFor(k, n) == IF k = 1 THEN MethodSeq[(n % 5) + 1] ELSE BodyMethods[(n % 3) + 1]
 S(n) == ToString(n)
 SameSpot(a1, b1, a2, b2) == LocReq[a1].in = LocReq[a2].in /\ b1 = b2
@@ -72,13 +80,13 @@ FoldIdx(b) == IF ShapeSeq[b] = "camel" THEN 2 ELSE b
 Apart(bs) == \A i, j \in DOMAIN bs : i < j => FoldIdx(bs[i]) # FoldIdx(bs[j])
 
 FamA(full) ==
-  {MkOp("a" \o S(a) \o "x" \o S(b) \o "x" \o S(c) \o "x" \o S(lv), MethodSeq[((a + b + c + lv) % 5) + 1], <<P(a, b, c, lv)>>, Body(1, FALSE)) :
+  {Rend(MkOp("a" \o S(a) \o "x" \o S(b) \o "x" \o S(c) \o "x" \o S(lv), MethodSeq[((a + b + c + lv) % 5) + 1], <<P(a, b, c, lv)>>, Body(1, FALSE)), a + c) :
      <<a, b, c, lv>> \in {t \in (1..NA) \X (1..NB) \X (1..NC) \X (1..2) : Valid(t[1], t[3]) /\ (full \/ (t[1] + t[2] + t[3]) % 3 = 0)}}
 
 FamB(rots) ==
   {LET a == t[1]  b == t[2]  k == t[3]  r == t[4]  c == ((a + b + k + 2 * r) % NC) + 1  lv == ((a + k + r) % 2) + 1 IN
-   MkOp("b" \o S(a) \o "x" \o S(b) \o "x" \o S(k) \o "x" \o S(r), MethodFor(k, a + b + k + r), <<P(a, b, c, lv)>>,
-        WithPrim(Body(k, ~(k \in 2..5 /\ (a + b + r) % 4 = 0)), a + r)) :
+   Rend(MkOp("b" \o S(a) \o "x" \o S(b) \o "x" \o S(k) \o "x" \o S(r), MethodFor(k, a + b + k + r), <<P(a, b, c, lv)>>,
+             WithPrim(Body(k, ~(k \in 2..5 /\ (a + b + r) % 4 = 0)), a + r)), b + k) :
      t \in (1..NA) \X (1..NB) \X (2..NK) \X (0..(rots - 1))}
 
 PairIdx(a, b) == (a - 1) * NB + b
@@ -110,7 +118,7 @@ FamD(mod, rots) ==
 
 FamE(types) ==
   {LET a == t[1]  b == t[2]  c == IF types = 1 THEN ((a + b) % NC) + 1 ELSE t[3] IN
-   MkOp("e" \o S(a) \o "x" \o S(b) \o "x" \o S(c), MethodSeq[((a + b) % 5) + 1], <<P(a, b, c, 2), P(a, b, c, 1)>>, Body(1, FALSE)) :
+   Rend(MkOp("e" \o S(a) \o "x" \o S(b) \o "x" \o S(c), MethodSeq[((a + b) % 5) + 1], <<P(a, b, c, 2), P(a, b, c, 1)>>, Body(1, FALSE)), a + b) :
      t \in {u \in (1..NA) \X (1..NB) \X (1..types) : types = 1 \/ Valid(u[1], u[3])}}
 
 Quads == {u \in (1..NA) \X (1..NA) \X (1..NA) \X (1..NA) : u[1] < u[2] /\ u[2] < u[3] /\ u[3] < u[4]}
@@ -129,6 +137,21 @@ FamF(rots) ==
               Apart(bb)}}
 
 \* the family as a sequence of strata (identifiers are unique across strata by their first letter)
+\* G  path items shared by 2-3 operations: two path-level parameters (P(a, b), P(a+2, b+4)), siblings with different methods,
+\*    each with an operation-level parameter of its own (shape b+7: the three names fold differently) and a rotating body
+FamG(mod, rots) ==
+  UNION {LET a == t[1]  b == t[2]  r == t[3]
+             a2 == ((a + 1) % NA) + 1  b2 == ((b + 3) % NB) + 1  b3 == ((b + 6) % NB) + 1
+             item == "g" \o S(a) \o "x" \o S(b) \o "x" \o S(r)
+             shared == <<P(a, b, ((a + b + r) % NC) + 1, 2), P(a2, b2, ((a + 2 * b + r) % NC) + 1, 2)>>
+             n == 2 + ((a + b + r) % 2) IN
+         {LET a3 == ((a + 2 + j) % NA) + 1
+              k == IF j = 1 THEN 1 ELSE ((a + b + j + 4 * r) % (NK - 1)) + 2
+              m == IF j = 1 THEN (IF (a + r) % 2 = 0 THEN "GET" ELSE "DELETE") ELSE BodyMethods[((a + j) % 3) + 1] IN
+          Rend(MkOpIn(item \o "m" \o S(j), item, m,
+                      Ord(shared \o <<P(a3, b3, ((a3 + b3 + j) % NC) + 1, 1)>>), WithPrim(Body(k, TRUE), a + j)), a + b + r) : j \in 1..n}
+         : t \in {u \in (1..NA) \X (1..NB) \X (0..(rots - 1)) : (u[1] + u[2]) % mod = 0}}
+
 FamMini ==
   << {o \in FamA(FALSE) : o.params[1].level = "op"},
      {o \in FamB(1) : o.params[1].shape \in {"plain", "url", "body"}},
@@ -136,6 +159,6 @@ FamMini ==
      {o \in FamE(1) : o.params[1].shape \in {"plain", "kebab"}} >>
 
 Family == CASE Tier = "mini"     -> FamMini
-            [] Tier = "quick"    -> <<FamA(FALSE), FamB(1), FamC(4, 1), FamD(6, 1), FamE(1)>>
-            [] Tier = "thorough" -> <<FamA(TRUE), FamB(6), FamC(1, 3), FamD(1, 4), FamE(NC), FamF(8)>>
+            [] Tier = "quick"    -> <<FamA(FALSE), FamB(1), FamC(4, 1), FamD(6, 1), FamE(1), FamG(3, 1)>>
+            [] Tier = "thorough" -> <<FamA(TRUE), FamB(6), FamC(1, 3), FamD(1, 4), FamE(NC), FamF(8), FamG(1, 3)>>
 =============================================================================
